@@ -305,11 +305,17 @@ pub async fn run_op(env: &Env, op: &str, ctl: Arc<Ctl>, variant: u64) -> Result<
 }
 
 /// v1: 20 rows in 2 fragments; v2: delete id = 3 (deletion file); v3: BTree index on x; (V2 names) one detached commit
-pub async fn build_prestate(cfg: Cfg) -> Env {
+pub async fn build_prestate(cfg: Cfg, long: bool) -> Env {
     let env = Env::empty(cfg);
     let mut ds = Dataset::write(reader(batch(0, 20, 10)), &env.uri, Some(env.write_params(None, WriteMode::Create))).await.unwrap();
     ds.delete("id = 3").await.unwrap();
     ds.create_index(&["x"], IndexType::BTree, Some("x_idx".into()), &ScalarIndexParams::default(), true).await.unwrap();
+    if long {
+        // a longer history: v4 append (a third fragment), v5 delete (a second generation of deletion files), v6 config
+        ds.append(reader(batch(20, 27, 10)), Some(env.write_params(None, WriteMode::Append))).await.unwrap();
+        ds.delete("id % 5 = 1").await.unwrap();
+        ds.update_config([("long", "1")]).await.unwrap();
+    }
     if cfg.v2() {
         let ds = Arc::new(ds);
         let p = env.write_params(None, WriteMode::Append);
@@ -317,6 +323,21 @@ pub async fn build_prestate(cfg: Cfg) -> Env {
         CommitBuilder::new(ds).with_detached(true).execute(txn).await.unwrap();
     }
     env
+}
+
+/// plant a copy of the latest manifest under version number `version` (to reach the refusal of detached-range numbers)
+pub async fn plant_version(env: &Env, version: u64) -> Result<(), String> {
+    let ds = env.open(None, None).await.map_err(es)?;
+    let mut m = ds.manifest().clone();
+    m.version = version;
+    m.transaction_section = None; // the copy carries no inline transaction
+    let indices = ds.load_indices().await.map_err(es)?.as_ref().clone();
+    let scheme = ds.manifest_location().naming_scheme;
+    let path = scheme.manifest_path(&ds.branch_location().path, version);
+    lance_table::io::commit::write_manifest_file_to_path(ds.object_store(), &mut m, if indices.is_empty() { None } else { Some(indices) }, &path, None)
+        .await
+        .map_err(es)?;
+    Ok(())
 }
 
 #[derive(Clone, Debug, PartialEq)]
